@@ -87,9 +87,16 @@ def main():
                         ck.fail("draw-raises", dict(inp, quantile=q), f"{type(exc).__name__}: {str(exc)[:120]} (quantile above the total mass {total_ref})")
             if draws:
                 mean = float(np.mean(draws))
-                tol = 0.03 * max(abs(ref.mean), 1.0) + (1.0 if ref.discrete else 0.0)
-                if abs(mean - ref.mean) > tol:
-                    ck.fail("mean", inp, f"mean of the quantile grid {mean}, documented mean {ref.mean}")
+                # the draws were already compared one by one with the law's quantiles; what is decided here is the documented mean, against
+                # the exact mean of the law where the reference knows it (a quantile grid of a heavy-tailed law is a poor quadrature)
+                law_mean = getattr(ref, "mean_exact", None)
+                if law_mean is not None:
+                    if abs(law_mean - ref.mean) > 0.05 * max(abs(ref.mean), 1.0) + 1.0:
+                        ck.fail("mean", inp, f"exact mean of the law {law_mean}, documented mean {ref.mean}")
+                else:
+                    tol = 0.03 * max(abs(ref.mean), 1.0) + (1.0 if ref.discrete else 0.0)
+                    if abs(mean - ref.mean) > tol:
+                        ck.fail("mean", inp, f"mean of the quantile grid {mean}, documented mean {ref.mean}")
             # interval probabilities = CDF differences; non-negative; telescoping
             lo = ref.quantile(0.001) if ref.support[0] == -math.inf else max(ref.support[0], ref.quantile(0.001))
             hi = ref.quantile(0.999 * total_ref)
